@@ -31,6 +31,7 @@
      move m        a boundary shift: bytes move between neighbouring fields so that the
                    concatenation is unchanged (through a fixed-size field in the middle if needed)
      swap w        two components exchange their values (w = "ids": seal/open device ids)
+     alias w       the second component of the pair gets the value of the first (open_id := seal_id)
      flip r p      artifact region r, byte position class p (1 first / 2 middle / 3 last) is modified
      trunc r / ext r   last byte of region r removed / one byte appended
    Multi-point modifications are sequences of these; some sequences restore the original
@@ -161,7 +162,7 @@ MoveOk(p, ms, i) == IF i > Len(ms) THEN TRUE
 Ops ==
   {Op("replace", Comps[i].n, k) : i \in 1..Len(Comps), k \in 1..5} \cup
   {Op("move", m, 0) : m \in DOMAIN Moves} \cup
-  {Op("swap", w, 0) : w \in DOMAIN SwapsOf(scheme)} \cup
+  {Op(o, w, 0) : w \in DOMAIN SwapsOf(scheme), o \in {"swap", "alias"}} \cup
   {Op("flip", Regions[i].n, k) : i \in 1..Len(Regions), k \in 1..3} \cup
   {Op(o, Regions[i].n, 0) : i \in 1..Len(Regions), o \in {"trunc", "ext"}}
 
@@ -169,6 +170,7 @@ Enabled(o) ==
   CASE o.op = "replace" -> o.b <= Comps[CompIdx(o.a)].alts /\ pres[o.a] # Fresh(o.a, o.b)
     [] o.op = "move" -> MoveOk(pres, Moves[o.a], 1)
     [] o.op = "swap" -> TRUE
+    [] o.op = "alias" -> pres[SwapsOf(scheme)[o.a][1]] # pres[SwapsOf(scheme)[o.a][2]]
     [] o.op = "flip" -> Len(art[o.a]) = 3 /\ art[o.a][o.b] > 0
     [] o.op = "trunc" -> Regions[RegIdx(o.a)].var /\ Len(art[o.a]) >= 3
     [] o.op = "ext" -> Regions[RegIdx(o.a)].var /\ Len(art[o.a]) <= 3
@@ -178,6 +180,8 @@ Apply(o) ==
     [] o.op = "move" -> /\ pres' = MoveAll(pres, Moves[o.a], 1) /\ UNCHANGED art
     [] o.op = "swap" -> LET x == SwapsOf(scheme)[o.a][1]  y == SwapsOf(scheme)[o.a][2]
                         IN /\ pres' = [pres EXCEPT ![x] = pres[y], ![y] = pres[x]] /\ UNCHANGED art
+    [] o.op = "alias" -> LET x == SwapsOf(scheme)[o.a][1]  y == SwapsOf(scheme)[o.a][2]
+                         IN /\ pres' = [pres EXCEPT ![y] = pres[x]] /\ UNCHANGED art
     [] o.op = "flip" -> /\ art' = [art EXCEPT ![o.a][o.b] = -@] /\ UNCHANGED pres
     [] o.op = "trunc" -> /\ art' = [art EXCEPT ![o.a] = TakeTail(@)] /\ UNCHANGED pres
     [] o.op = "ext" -> /\ art' = [art EXCEPT ![o.a] = Append(@, -9999)] /\ UNCHANGED pres
@@ -209,7 +213,34 @@ Check ==
   /\ phase' = "checked"
   /\ UNCHANGED <<scheme, plen, pres, art, hist>>
 
-Next == (\E o \in Ops : Tamper(o)) \/ Check
+(* C38, "a device never derives both ends of one channel" (afc-util handler.rs, afc/uni.rs).
+   Who holds what: the author its encryption key and — until `uni_channel_created` consumed it
+   (`remove_key`) — the channel's author secret; the peer its encryption key; an outsider its own.
+   The seal end needs the author secret and the author's key, the open end the peer's key (and the
+   public encapsulation).  The handlers refuse `uni_channel_created` on the opening device and
+   `uni_channel_received` on the sealing device (AuthorMustBeSealer). *)
+Devices == {"author", "peer", "outsider"}
+Needs(e) == IF e = "seal" THEN {"author_sk", "secret"} ELSE {"peer_sk"}
+Holds(d, used) == CASE d = "author" -> {"author_sk"} \cup (IF used THEN {} ELSE {"secret"})
+                    [] d = "peer" -> {"peer_sk"}
+                    [] d = "outsider" -> {"outsider_sk"}
+HandlerAllows(d, e) == IF e = "seal" THEN d # "peer" ELSE d # "author"
+CanDerive(d, e, used) == Needs(e) \subseteq Holds(d, used) /\ HandlerAllows(d, e)
+
+IsRole == Len(hist) > 0 /\ hist[1].op = "role"
+
+(* device d attempts to obtain end e of the untouched channel; used = 1: after the author's
+   handler already produced the seal key once *)
+Role(d, e, used) ==
+  /\ scheme = "afcuni" /\ phase = "tamper" /\ hist = <<>>
+  /\ hist' = <<Op("role", d \o "_" \o e, used)>>
+  /\ accept' = CanDerive(d, e, used = 1)
+  /\ phase' = "checked"
+  /\ UNCHANGED <<scheme, plen, pres, art>>
+
+Next == \/ \E o \in Ops : Tamper(o)
+        \/ Check
+        \/ \E d \in Devices, e \in {"seal", "open"}, u \in 0..1 : Role(d, e, u)
 
 Spec == Init /\ [][Next]_vars
 
@@ -218,7 +249,14 @@ Spec == Init /\ [][Next]_vars
 Unchanged == pres = Orig /\ art = OrigArt
 
 (* the primitive succeeds iff nothing at all is different — context and artifact *)
-AcceptIffUnchanged == phase = "checked" => (accept <=> (Unchanged /\ ~Refused(pres)))
+AcceptIffUnchanged == (phase = "checked" /\ ~IsRole) => (accept <=> (Unchanged /\ ~Refused(pres)))
+
+(* C38: no device can obtain both ends; only the author gets the seal end (once), only the peer
+   the open end *)
+NoBothEnds == \A d \in Devices : ~(CanDerive(d, "seal", FALSE) /\ CanDerive(d, "open", FALSE))
+OnlyRightful == \A d \in Devices, u \in BOOLEAN :
+                   /\ CanDerive(d, "seal", u) => (d = "author" /\ ~u)
+                   /\ CanDerive(d, "open", u) => d = "peer"
 
 (* C34: signer and verifier derive the same command id exactly when verification succeeds on
    the untouched signature; any other presentation derives a different id *)
